@@ -250,3 +250,27 @@ N("C13", "threshold written as < 7", B64, "len(set(b64_string)) <= MIN_B64_CHARS
 N("C13", "regex equal-language rewrite", HEXF, 'HEX_RE = rb"((?:[a-f0-9]{2}){10,}|(?:[A-F0-9]{2}){10,})"', 'HEX_RE = rb"((?:[0-9a-f][0-9a-f]){10,}|(?:[0-9A-F]{2}){10,})"')
 N("C13", "xor operands swapped", XH, "data = bytes(b ^ xorkey for b in data)", "data = bytes(xorkey ^ b for b in data)")
 N("C13", "guards split", B64, "        if len(b64_string) % 4 != 0 or len(set(b64_string)) <= MIN_B64_CHARS:\n            continue\n", "        if len(b64_string) % 4 != 0:\n            continue\n        if len(set(b64_string)) <= MIN_B64_CHARS:\n            continue\n")
+
+# ------------------------------------------------------------------ C14
+XMLF = D + "xml.py"
+CHRF = D + "chr.py"
+JSF = D + "javascript.py"
+CODF = D + "codec.py"
+B("C14", "{5,} -> {3,}", XMLF, "[0-1]?[0-9]{1,2}));){5,}", "[0-1]?[0-9]{1,2}));){3,}", "R1-xml")
+B("C14", "decimal alt -> \\d{1,3}", XMLF, "(?:25[0-5]|2[0-4][0-9]|[0-1]?[0-9]{1,2})", "(?:\\d{1,3})", "R1-xml")
+B("C14", "hex alt admits non-hex again", XMLF, "x[a-f0-9]{2}", "x[a-z0-9]{2}", "R1-xml")
+B("C14", "hex alt one or two digits", XMLF, "x[a-f0-9]{2}", "x[a-f0-9]{1,2}", "R1-xml")
+B("C14", "chr handler appends anyway", CHRF, "        except (ValueError, UnicodeEncodeError):\n            continue\n", "        except (ValueError, UnicodeEncodeError):\n            character = b\"?\"\n", "R4-chr")
+B("C14", "chr encodes with surrogatepass", CHRF, "character = chr(int(match.group(1))).encode()", "character = chr(int(match.group(1)) % 256).encode()", "R3-provenance")
+B("C14", "unescape decodes the whole match", JSF, "unquote_to_bytes(match.group(1)),", "unquote_to_bytes(match.group()),", "R3-provenance")
+B("C14", "UTF-16 class admits NUL first byte", CODF, 'rb"(?s)(?:[^\\x00-\\x08\\x0e-\\x1f\\x7f-\\x9f]\\x00){7,}"', 'rb"(?s)(?:[^\\x01-\\x08\\x0e-\\x1f\\x7f-\\x9f]\\x00){7,}"', "R6-utf16")
+B("C14", "UTF-16 threshold 5", CODF, 'rb"(?s)(?:[^\\x00-\\x08\\x0e-\\x1f\\x7f-\\x9f]\\x00){7,}"', 'rb"(?s)(?:[^\\x00-\\x08\\x0e-\\x1f\\x7f-\\x9f]\\x00){5,}"', "R6-utf16")
+B("C14", "span from group 1", CHRF, 'out.append(Node("string", character, "function.chr", *match.span()))', 'out.append(Node("string", character, "function.chr", *match.span(1)))', "R3-provenance")
+B("C14", "utf-16 decoded with errors=ignore", CODF, 'match.group().decode("utf-16").encode("utf-8"),', 'match.group().decode("utf-16", "ignore").encode("utf-8"),', "R3-provenance")
+B("C14", "xml split keeps the last empty token", XMLF, '.split(b";")[:-1]', '.split(b";")', "R2-xml-tokens")
+B("C14", "xml hex branch keeps the x", XMLF, "int(x[1:], base=16)", "int(x[2:], base=16)", "R2-xml-tokens")
+B("C14", "xml tokeniser case-sensitive while the pattern is not", XMLF, 'if x.startswith((b"x", b"X"))', 'if x.startswith(b"x")', "R2-xml-tokens")
+B("C14", "unescape label typo", JSF, '"function.unescape",', '"function.escape",', "R3-provenance")
+N("C14", "regex equal-language rewrite", XMLF, "x[a-f0-9]{2}", "x[0-9a-f][0-9a-f]")
+N("C14", "chr handler catches the superclass only", CHRF, "except (ValueError, UnicodeEncodeError):", "except ValueError:")
+N("C14", "explicit span", CHRF, 'out.append(Node("string", character, "function.chr", *match.span()))', 'out.append(Node("string", character, "function.chr", match.start(), match.end()))')
